@@ -20,9 +20,32 @@ import (
 // C20 — the in-memory log buffer keeps the most recent entries of all loggers (root and derived), newest first.
 
 func newMemLogger() (*logging.MemLogger, *zap.Logger) {
+	return newMemLoggerAt(zapcore.DebugLevel)
+}
+
+func newMemLoggerAt(enab zapcore.LevelEnabler) (*logging.MemLogger, *zap.Logger) {
 	enc := zapcore.NewJSONEncoder(zap.NewProductionEncoderConfig())
-	ml := logging.NewMemLogger(enc, zapcore.DebugLevel)
+	ml := logging.NewMemLogger(enc, enab)
 	return ml, zap.New(ml.GetCore())
+}
+
+// snapshotDetail renders level and call fields of every retained entry ("id|level|n=<v>").
+func snapshotDetail(ml *logging.MemLogger) []string {
+	var out []string
+	for _, e := range ml.GetLogs() {
+		if e == nil {
+			out = append(out, "<nil>")
+			continue
+		}
+		d := e.Message + "|" + e.Level.String()
+		for _, f := range e.Context {
+			if f.Key == "n" {
+				d += fmt.Sprintf("|n=%d", f.Integer)
+			}
+		}
+		out = append(out, d)
+	}
+	return out
 }
 
 func snapshotIDs(ml *logging.MemLogger) []string {
@@ -47,10 +70,24 @@ func c20sequential(c *fw.Ctx) {
 	if r.Intn(4) == 0 {
 		total = r.Intn(3 * capacity)
 	}
-	ml, root := newMemLogger()
+	// half of the histories run on an adjustable level (the way InitLogging builds the logger): the level is changed
+	// mid-stream, and a write counts as written iff its level is enabled at that moment, through whichever logger
+	var alvl *zap.AtomicLevel
+	var ml *logging.MemLogger
+	var root *zap.Logger
+	if c.Idx%2 == 1 {
+		a := zap.NewAtomicLevelAt(zapcore.DebugLevel)
+		alvl = &a
+		ml, root = newMemLoggerAt(a)
+		c.Count("histories_on_adjustable_level", 1)
+	} else {
+		ml, root = newMemLogger()
+	}
 	loggers := []*zap.Logger{root}
 	names := []string{"root"}
 	var written []string
+	var detail []string // id|level|n=<v> of every accepted write
+	attempts := 0
 	// points at which derived loggers are created: before any write, mid-stream, after wrap
 	deriveAt := map[int]bool{}
 	nd := r.Intn(5)
@@ -94,6 +131,20 @@ func c20sequential(c *fw.Ctx) {
 				return false
 			}
 		}
+		if r.Intn(4) == 0 { // level and call fields of every retained entry
+			wd := detail
+			if len(wd) > capacity {
+				wd = wd[len(wd)-capacity:]
+			}
+			gd := snapshotDetail(ml)
+			for i := range gd {
+				if gd[i] != wd[len(wd)-1-i] {
+					c.Violate("", "GetLogs entry %d is %q, the entry written was %q (%s)", i, gd[i], wd[len(wd)-1-i], when)
+					return false
+				}
+			}
+			c.Count("snapshots_compared_in_detail", 1)
+		}
 		c.Count("snapshots_compared", 1)
 		return true
 	}
@@ -118,16 +169,36 @@ func c20sequential(c *fw.Ctx) {
 		if len(loggers) > 1 && r.Intn(3) == 0 {
 			li = len(loggers) - 1
 		}
+		if alvl != nil && r.Intn(40) == 0 {
+			nl := []zapcore.Level{zapcore.DebugLevel, zapcore.InfoLevel, zapcore.WarnLevel, zapcore.ErrorLevel, zapcore.DebugLevel}[r.Intn(5)]
+			alvl.SetLevel(nl)
+			events = append(events, fmt.Sprintf("@%d level=%s", i, nl))
+			c.Count("level_changes", 1)
+		}
 		id := fmt.Sprintf("id-%d-%d", li, i)
+		var wl zapcore.Level
+		d := id
 		switch r.Intn(3) {
 		case 0:
+			wl = zapcore.InfoLevel
 			loggers[li].Info(id)
+			d += "|info"
 		case 1:
+			wl = zapcore.DebugLevel
 			loggers[li].Debug(id, zap.Int("n", i))
+			d += fmt.Sprintf("|debug|n=%d", i)
 		default:
+			wl = zapcore.ErrorLevel
 			loggers[li].Error(id)
+			d += "|error"
 		}
-		written = append(written, id)
+		attempts++
+		if alvl == nil || alvl.Enabled(wl) {
+			written = append(written, id)
+			detail = append(detail, d)
+		} else {
+			c.Count("writes_below_the_level", 1)
+		}
 		if i%gap == off || i == total-1 || (boundaryReads && (i == capacity-1 || i == capacity)) {
 			if !check(fmt.Sprintf("after write %d of %d", i+1, total)) {
 				return
@@ -158,9 +229,9 @@ func c20sequential(c *fw.Ctx) {
 		}
 	}
 	c.Count("sequential_histories", 1)
-	c.Count("entries_written", int64(total))
+	c.Count("entries_written", int64(len(written)))
 	c.Count("derived_loggers", int64(len(loggers)-1))
-	if total > capacity {
+	if len(written) > capacity {
 		c.Count("histories_above_capacity", 1)
 	}
 	if len(loggers) > 1 && total > 0 {
@@ -371,13 +442,13 @@ func init() {
 		// a concurrent run normally takes well under a second; if no case completes for 120 s (writers or a dump blocked
 		// for good) the worker stops and the driver reports the case
 		StallSeconds: 120,
-		Rule: "sequential histories: a root zap.Logger on MemLogger.GetCore() and 0..4 loggers derived with With(fields) from the root or from each other, created before any write, mid-stream or after the ring wrapped; writes interleaved through all loggers, each with a unique id; totals 0, 1, 2, 17, capacity-1, capacity, capacity+1, 2*capacity, 2*capacity+3, 5000 and random " +
+		Rule: "sequential histories: a root zap.Logger on MemLogger.GetCore() (half of them on an adjustable zap.AtomicLevel that is changed mid-stream: a write counts iff its level is enabled at that moment; a quarter of the reads also compare level and call fields of every entry) and 0..4 loggers derived with With(fields) from the root or from each other, created before any write, mid-stream or after the ring wrapped; writes interleaved through all loggers, each with a unique id; totals 0, 1, 2, 17, capacity-1, capacity, capacity+1, 2*capacity, 2*capacity+3, 5000 and random " +
 			"(capacity read from logging.BufferSize). After every 257th write, at the capacity boundary and at the end GetLogs() must equal exactly the last min(total, capacity) ids, newest first; WriteLogs at detail 1..3 must print the same ids in the same order. " +
 			"concurrent histories (race binary): 2..8 goroutines write unique ids through a mix of root and derived loggers (some derived mid-stream), GOMAXPROCS in {1,2,4,16}; at quiescence exactly min(total, capacity) distinct written entries, per writer a suffix of its writes in newest-first order; in half of the runs GetLogs/WriteLogs run concurrently and every snapshot must be duplicate-free, " +
 			"made of written ids, per-writer newest-first. Race reports are violations. non-trivial = history with at least one derived logger (sequential) / every concurrent run",
 		Cases: func(tier string) int { s, cc := c20layout(tier); return s + cc },
 		Run:   runC20,
-		Floors: map[string]int64{"sequential_histories": 4500, "read_gap:capacity": 300, "read_gap:2xcapacity": 300, "read_gap:1": 200, "snapshots_compared": 10000, "derived_loggers": 5000, "histories_above_capacity": 1500, "concurrent_runs": 200, "concurrent_runs_above_capacity": 50,
+		Floors: map[string]int64{"sequential_histories": 4500, "histories_on_adjustable_level": 2000, "level_changes": 20000, "writes_below_the_level": 100000, "snapshots_compared_in_detail": 20000, "read_gap:capacity": 300, "read_gap:2xcapacity": 300, "read_gap:1": 200, "snapshots_compared": 10000, "derived_loggers": 5000, "histories_above_capacity": 1500, "concurrent_runs": 200, "concurrent_runs_above_capacity": 50,
 			"concurrent_runs_with_snapshots": 90, "entries_written": 3000000},
 		Assumptions: []string{"capacity is read from the exported constant logging.BufferSize", "a case in which writers or GetLogs/WriteLogs do not return for 120 s (normal: milliseconds) is reported as a violation: the buffer no longer returns its entries", "race freedom = no report from the Go race detector on the interleavings that occurred"},
 	})
